@@ -326,8 +326,8 @@ func VerifC14Framing() {
 	if ncl > 0 {
 		req.Header["Content-Length"] = cls
 	}
-	teChoice := vf.Choice("transfer-encoding", 4)
-	tes := [][]string{nil, {"chunked"}, {"gzip, chunked"}, {"chunked", "gzip"}}[teChoice]
+	teChoice := vf.Choice("transfer-encoding", 7)
+	tes := [][]string{nil, {"chunked"}, {"gzip, chunked"}, {"chunked", "gzip"}, {"gzip", "chunked"}, {"gzip, chunked", "identity"}, {"gzip , chunked "}}[teChoice]
 	if tes != nil {
 		req.Header["Transfer-Encoding"] = tes
 	}
@@ -338,7 +338,7 @@ func VerifC14Framing() {
 			conflict = true
 		}
 	}
-	badTE := teChoice == 3
+	badTE := teChoice == 3 || teChoice == 5
 	vf.Assert((err != nil) == (conflict || badTE), "framing:error-iff-conflicting-length-or-te-not-ending-in-chunked")
 	if err == nil && ncl > 0 && tes == nil {
 		vf.Assert(len(req.Header["Content-Length"]) == 1 && req.Header["Content-Length"][0] == cls[0], "framing:single-content-length-kept")
